@@ -1,11 +1,62 @@
 (* C06 - Bypass and pre-check gating: what must not run does not run.
-   (first stage: the reading lemmas of the monitor; the automaton theorem c06_gating is added below them) *)
-From Coercion.Base Require Import Plan.
-From Coercion.Engine Require Import Shape Event Accept.
-From Coercion.C06 Require Import MonC06 MonC06Facts.
 
-(* If at the end of a trace the monitor accepts some pre check or some check of the initial continuous run has
-   not returned OOk, no sequence action of the scope was invoked anywhere in the trace. *)
+   mon_gate (MonC06.v) is the formal statement of the property over an observed trace: per scope (the plan,
+   every block) a fold over the plugin Start/End events and the plan Wait returned.  The theorems say that the
+   monitor holds on EVERY trace the observable engine automaton (coq/engine: step / run / init) accepts, for
+   every shape and every interleaving, with no bound; they are proved by a product invariant between the
+   automaton state and the monitor state of each scope (RelPlan.v, RelBlock.v) on top of reachable-state
+   invariants of the automaton (Inv.v, InvPlan.v).  This file contains statements and `exact` only. *)
+From Coercion.Base Require Import Plan.
+From Coercion.Engine Require Import Shape Event PlanSM Auto Accept.
+From Coercion.C06 Require Import MonC06 MonC06Facts C06Proofs.
+
+(* THE THEOREM (prefix-closed form): every accepted trace satisfies the monitor - clauses 1, 2, 3 at every
+   plugin event of every scope, clauses 4-8 at the release if the trace contains it. *)
+Theorem c06_gating :
+  forall sh tr s, shape_wf sh = true -> run sh init tr = Some s -> mon_gate (sh, tr) = true.
+Proof. exact gating. Qed.
+Print Assumptions c06_gating.
+
+(* ... at a trace that ends with the release (Wait returned fin), spelled out for every scope sc of the plan, with
+   m the monitor state of the scope after the trace: bypass passed => the scope is Completed in fin; not passed
+   and the pre group or the initial continuous run not all-ok => Failed; not passed and Failed => a stage other
+   than the bypass is Failed in fin (the bypass failure alone never fails the scope); not passed and Completed =>
+   the scope ran to its end; whatever ran of the scope, the scope did end. *)
+Theorem c06_gating_at_release :
+  forall sh tr fin s sc,
+    shape_wf sh = true -> run sh init (tr ++ [EvRelease fin]) = Some s -> In sc (scopes sh) ->
+    exists m, mfold sh sc (m_init sh sc) tr = Some m /\
+      let st := fin_st fin (scope_obj sc) in
+      (passed m = true -> st = Completed) /\
+      (passed m = false -> gate_failed m = true -> st = Failed) /\
+      (passed m = false -> st = Failed -> cause sh (fin_st fin) sc = true) /\
+      (passed m = false -> st = Completed -> work sh (fin_st fin) sc = true) /\
+      (ran_any m = true -> st = Completed \/ st = Failed).
+Proof. exact gating_at_release. Qed.
+Print Assumptions c06_gating_at_release.
+
+(* "If a pre-check, or the initial run of a continuous check, fails, no sequence action of that scope is EVER
+   invoked": if at the end of an accepted trace some pre check or some check of the initial continuous run of the
+   scope has not returned ok, the trace contains no invocation of a sequence action of the scope at all. *)
+Theorem c06_no_sequence_behind_a_closed_gate :
+  forall sh tr s sc,
+    shape_wf sh = true -> run sh init tr = Some s -> In sc (scopes sh) ->
+    exists m, mfold sh sc (m_init sh sc) tr = Some m /\
+      (gate_open m = false -> forall a, In (EvStart a) tr -> in_scope sc a = true -> is_seq a = false).
+Proof. exact gating_never. Qed.
+Print Assumptions c06_no_sequence_behind_a_closed_gate.
+
+(* "If every bypass check succeeds nothing else in that scope is invoked": once every bypass check of a scope has
+   returned ok (after tr1), the rest of an accepted trace contains no plugin event of the scope. *)
+Theorem c06_nothing_after_a_passed_bypass :
+  forall sh tr1 tr2 s sc m1,
+    shape_wf sh = true -> run sh init (tr1 ++ tr2) = Some s -> In sc (scopes sh) ->
+    mfold sh sc (m_init sh sc) tr1 = Some m1 -> passed m1 = true ->
+    forall a, (In (EvStart a) tr2 \/ exists o, In (EvEnd a o) tr2) -> in_scope sc a = false.
+Proof. exact gating_silence. Qed.
+Print Assumptions c06_nothing_after_a_passed_bypass.
+
+(* the reading lemma of the monitor alone (no automaton): flags never go back *)
 Theorem c06_gate_never :
   forall sh sc tr m,
     mfold sh sc (m_init sh sc) tr = Some m -> gate_open m = false ->
